@@ -80,6 +80,12 @@ type scanner struct {
 	// cause.
 	scalarOnly bool
 
+	// findLimit, if positive, is a file position at which Find gives up
+	// (io.EOF).  SequentialScan sets it to the start of the next located
+	// object, so that the search for a missing "endstream" costs at most
+	// the distance to the next object instead of the rest of the file.
+	findLimit int64
+
 	nestDepth int
 
 	enc         *encryptInfo
@@ -887,7 +893,11 @@ func (s *scanner) ReadStreamData(dict Dict) (stm *Stream, err error) {
 	// unknown and the stream extent is recovered by scanning for endstream.
 	lengthObj, hasLength := dict["Length"]
 	declared := int64(-1)
-	if hasLength {
+	if hasLength && s.fileReader != nil {
+		// (without a file reader - object stream members, trailer scanners -
+		// there is no stream data to read and the length is not needed;
+		// resolving an indirect /Length there can lead back to this very
+		// object and recurse until the stack overflows)
 		n, err := s.getInt(lengthObj)
 		if IsReadError(err) && !isEndOfData(err) {
 			// a length object cut off by the end of the data is a
@@ -1259,6 +1269,9 @@ func (s *scanner) Find(pat *regexp.Regexp) (int64, []string, error) {
 		m := pat.FindSubmatchIndex(s.buf[s.pos:s.used])
 		if m != nil {
 			matchPos := s.filePos + int64(s.pos+m[0])
+			if s.findLimit > 0 && matchPos >= s.findLimit {
+				return 0, nil, io.EOF
+			}
 
 			// found a match
 			res := make([]string, len(m)/2)
@@ -1278,6 +1291,9 @@ func (s *scanner) Find(pat *regexp.Regexp) (int64, []string, error) {
 		nextPos := s.used - regexpOverlap
 		if nextPos > s.pos {
 			s.pos = nextPos
+		}
+		if s.findLimit > 0 && s.filePos+int64(s.pos) >= s.findLimit {
+			return 0, nil, io.EOF
 		}
 		endBefore := s.used
 		err := s.refill()
